@@ -300,7 +300,14 @@ impl<F: Float, L: Label + std::fmt::Debug> TreeNode<F, L> {
                 let score = w * left_score + (1.0 - w) * right_score;
 
                 // Take the midpoint from this value and the next one as split_value
-                split_value = (split_value + sorted_index.sorted_values[i + 1].1) / F::cast(2.0);
+                let next_value = sorted_index.sorted_values[i + 1].1;
+                let this_value = split_value;
+                split_value = (this_value + next_value) / F::cast(2.0);
+                // the midpoint of two neighbouring floats is not representable and may round up to
+                // the larger one; the split has to stay strictly below it
+                if split_value >= next_value {
+                    split_value = this_value;
+                }
 
                 // override best indices when score improved
                 best = match best.take() {
